@@ -10,6 +10,7 @@ func extJobs(cx *ctx) []*extJob {
 	out = append(out, windowJobs(cx)...)
 	out = append(out, rejectJobs(cx)...)
 	out = append(out, resetJobs(cx)...)
+	out = append(out, contJobs(cx)...)
 	out = append(out, rpcJobs(cx)...)
 	return out
 }
@@ -23,6 +24,8 @@ func replayExt(cx *ctx, c *caseRec) ([]*caseRec, error) {
 		return cx.runReject(rejectSpec{Fam: c.Family, V: variantByName(c.Variant), Names: c.History})
 	case "reset":
 		return cx.runReset(resetSpec{Fam: c.Family, V: variantByName(c.Variant), Names: c.History})
+	case "reset-cont":
+		return cx.runCont(contSpec{Fam: c.Family, V: variantByName(c.Variant), Prog: c.History, Full: true})
 	case "rpc":
 		return cx.runRPC(rpcSpec{Fam: c.Family, V: variantByName(c.Variant), Names: c.History})
 	}
@@ -49,6 +52,7 @@ func extCoverage(cx *ctx) map[string]any {
 			"alphabet":         resetAlphabet,
 			"resets_performed": int(c.resets.Get()),
 		},
+		"reset-cont": contCoverage(cx),
 		"rpc": map[string]any{
 			"cases":                      len(rpcSpecs(cx.r.Thorough())),
 			"alphabet":                   rpcAlphabet,
